@@ -344,6 +344,9 @@ def register_pandas():
     def normalize_dataframe(df):
         mgr = df._mgr
         data = list(mgr.arrays) + [df.columns, df.index]
+        # Which columns live in which block: frames that distribute their columns
+        # differently over equal blocks (e.g. swapped dtypes) must not collide
+        data += [blk.mgr_locs.as_array for blk in getattr(mgr, "blocks", ())]
         return list(map(normalize_token, data))
 
     @normalize_token.register(pd.arrays.ArrowExtensionArray)
